@@ -56,6 +56,8 @@ def series(kind, n, scale, rng):
         return np.linspace(0.0, 1.5 * scale, n)
     if kind == "drop":
         return np.concatenate([np.full(n // 3, 2.0 * scale), np.full(n - n // 3, 0.05 * scale)])
+    if kind == "stop":   # (plenty, then nothing at all: with no grass either, a month in which nothing is on offer follows months of plenty)
+        return np.concatenate([np.full(n // 3, 2.0 * scale), np.zeros(n - n // 3)])
     if kind == "rand":
         return rng.uniform(0, 1.3 * scale, n)
     raise ValueError(kind)
